@@ -220,6 +220,9 @@ func (c *DefaultCrawler) Run(ctx context.Context, startingPeers []*peer.AddrInfo
 	numSkipped := 0
 	peerAddrs.lk.Lock()
 	for _, ai := range startingPeers {
+		if _, ok := peersSeen[ai.ID]; ok {
+			continue // duplicate seed
+		}
 		extendAddrs := c.host.Peerstore().Addrs(ai.ID)
 		if len(ai.Addrs) > 0 {
 			extendAddrs = append(extendAddrs, ai.Addrs...)
